@@ -205,7 +205,8 @@ def real(req, plain=False):
         return core.real_accepts(ps, n, K)
     from . import real_mod, real_rt, real_disc
     if op.startswith('rt:'):
-        return (real_rt.RT.get(op[3:]) or real_disc.RT[op[3:]])(req)
+        from . import real_decl
+        return (real_rt.RT.get(op[3:]) or real_decl.RT.get(op[3:]) or real_disc.RT[op[3:]])(req)
     if op in real_disc.OPS:
         return real_disc.OPS[op](req)
     if op in real_mod.OPS:
